@@ -236,7 +236,9 @@ def start(root, allow=()):
     install()
     _state['records'] = []
     _state['root'] = os.path.realpath(os.fsencode(root))
-    pre = [sys.prefix, sys.base_prefix, '/verif', '/repo', '/usr/lib',
+    here = os.path.dirname(os.path.dirname(os.path.abspath(__file__)))
+    pre = [sys.prefix, sys.base_prefix, '/verif', '/repo', here,
+           os.environ.get('VERIF_REPO', '/repo'), '/usr/lib',
            '/usr/share', '/root/.pyenv', '/venv', '/proc/self', '/dev/null',
            '/dev/urandom', '/etc/localtime', '/usr/local/lib']
     _state['allow'] = tuple(os.fsencode(p) for p in list(pre) + list(allow))
